@@ -161,8 +161,9 @@ pub fn layout(t: &TypeS, ps: u64, env: &Env, own_vfptr: bool) -> Layout {
         };
         offsets.push(off);
         sizes.push(sz);
+        // an unnamed zero-length array is padding of size 0 and vanishes; a named one is a field
         let is_array = matches!(f.ty, MTy::Arr(..) | MTy::Unk(_));
-        if !(sz == 0 && is_array) {
+        if !(sz == 0 && is_array && f.name.is_none()) {
             regions += 1;
             sole_align = Some(al);
             field_aligns.push((off, al));
